@@ -301,4 +301,15 @@ var seedSnippets = []string{
 	"s := []int{1,2,3}; s = append(s, 4); len(s)",
 	"var b byte = 255; b++; b",
 	"x := 10; if x > 5 { x = 1 } else { x = 2 }; x",
+	// container histories followed by every operation that walks the container inside ONE native call
+	"m := map[string]int{\"a\": 1, \"b\": 2, \"c\": 3}; delete(m, \"a\"); n := 0; for k, v := range m { n += v + len(k) }; n",
+	"m := map[string]int{\"a\": 1, \"b\": 2, \"c\": 3}; for k := range m { delete(m, \"c\"); delete(m, k) }; len(m)",
+	"m := map[int]string{1: \"a\", 2: \"b\", 3: \"c\"}; delete(m, 2); t := \"\"; for _, v := range m { t += v }; len(t)",
+	"import \"golang.org/x/exp/maps\"; m := map[string]int{\"a\": 1, \"b\": 2, \"c\": 3}; delete(m, \"b\"); k := maps.Keys(m); c := maps.Clone(m); len(k) + len(c)",
+	"import \"golang.org/x/exp/maps\"; m := map[int]int{1: 1, 2: 2, 3: 3, 4: 4}; delete(m, 1); delete(m, 9); m[1] = 5; delete(m, 3); len(maps.Keys(m)) + len(maps.Clone(m))",
+	"import \"fmt\"; m := map[string]int{\"a\": 1, \"b\": 2}; delete(m, \"a\"); s := fmt.Sprint(m); println(m); len(s)",
+	"import \"golang.org/x/exp/slices\"; xs := []int{3, 1, 2}; xs = slices.Delete(xs, 0, 1); slices.Sort(xs); slices.SortFunc(xs, func(a, b int) bool { return a > b }); slices.Contains(xs, 2)",
+	"import \"strings\"; s := strings.Repeat(\"ab\", 3); p := strings.Split(s, \"b\"); j := strings.Join(p, \"-\"); strings.ReplaceAll(j, \"a\", \"\") + strings.TrimRight(j, \"-\")",
+	"m := map[bool]int{true: 1, false: 2}; delete(m, true); m[true] = 3; delete(m, false); n := 0; for _, v := range m { n += v }; n",
+	"m := map[float64]int{1.5: 1, 2.5: 2}; delete(m, 1.5); n := 0; for k := range m { n += int(k) }; n",
 }
